@@ -97,7 +97,56 @@ def check_mstep_wrapper(P, R):
         R.check(ok, "LOOP.L5", key, f"criterion = {src(second)[:60]}", "average log-likelihood of the reduced statistics", "the criterion is not total log-likelihood divided by the total sample count of the reduced statistics (un-averaged, or taken from one block)", r.lineno)
 
 
+def check_variance_update(P, R, key="gmm:ml_gmm_m_step"):
+    """The ML variance update is the responsibility-weighted second moment about the machine's means *as they are when the
+    update runs*: either the centred form  sum_pxx/n - 2*mean*sum_px/n + mean^2, or  sum_pxx/n - mean^2  with a mean that is, on
+    every path, the weighted mean sum_px/n of the same statistics (which fails when the means are not being updated)."""
+    from ..cfg import ENTRY
+    from ..engines import pol
+
+    f = P.func(key)
+    du = get_defuse(f, P)
+    mp, sp = f.value_params[:2]
+    p = pol.Pol(P, f)
+    for st, t, v, k in stores(f):
+        if not (isinstance(t, ast.Attribute) and t.attr == "variances" and isinstance(t.value, ast.Name) and t.value.id == mp):
+            continue
+        cst = du.stmt_of(st)
+        terms = list(dict.fromkeys(p.terms(v, cst)))
+        has = lambda a, pats: any(pol._match(x, pats) for x in a)
+        sec = [x for x in terms if has(x[1], [f"{sp}.sum_pxx"])]
+        cross = [x for x in terms if has(x[1], [f"{sp}.sum_px"]) and has(x[1], [f"{mp}.means", f"{mp}._means"]) and not has(x[1], [f"{sp}.sum_pxx"])]
+        sq = [x for x in terms if has(x[1], [f"{mp}.means", f"{mp}._means"]) and not has(x[1], [f"{sp}.sum_px", f"{sp}.sum_pxx"])]
+        what = f"{src(t)} = {src(v)[:70]}"
+        if not sec or any(s_ != 1 for s_, a in sec):
+            R.violation("POL.ml-variance", key, what, "the second-order statistics do not enter the variance update positively", st.lineno)
+            continue
+        if cross:
+            ok = all(s_ == -1 for s_, a in cross) and sq and all(s_ == 1 for s_, a in sq)
+            R.check(ok, "POL.ml-variance", key, what, "centred second moment: E[x^2] - 2 m E[x] + m^2", f"centred form with wrong signs: {pol.fmt_terms(cross + sq)}", st.lineno)
+            continue
+        if not sq or any(s_ != -1 for s_, a in sq):
+            R.violation("POL.ml-variance", key, what, f"the squared mean is not subtracted from the second moment: {pol.fmt_terms(sq) or 'missing'}", st.lineno)
+            continue
+        # E[x^2] - m^2 : only the M-step when m is the weighted mean of the same statistics on every path
+        mean_stores = [du.stmt_of(s2) for s2, t2, v2, k2 in stores(f) if isinstance(t2, ast.Attribute) and t2.attr in ("means", "_means") and isinstance(t2.value, ast.Name) and t2.value.id == mp]
+        fresh = bool(mean_stores)
+        for s2, t2, v2, k2 in stores(f):
+            if isinstance(t2, ast.Attribute) and t2.attr in ("means", "_means") and isinstance(t2.value, ast.Name) and t2.value.id == mp:
+                c = cone(du, v2, du.stmt_of(s2), interproc=False)
+                fresh = fresh and c.has_attr("sum_px") and c.has_attr("n")
+        stale_path = du.cfg.reach_avoiding(ENTRY, cst, set(mean_stores))
+        R.check(
+            fresh and not stale_path, "POL.ml-variance", key, what,
+            "mean is the weighted mean of the same statistics on every path",
+            "the update is E[x^2] - mean^2 with the machine's current means, but on the path where the means are not updated "
+            "(update_means off, update_variances on) they are not the weighted mean of these statistics: the result is not the "
+            "second moment about the means (it can even be negative) and the likelihood decreases", st.lineno,
+        )
+
+
 def run(P, R, tier):
+    check_variance_update(P, R)
     F = loopeng.analyse(P, R, FIT, "max_fitting_steps", "convergence_threshold", ("m_step",))
     if F is not None:
         n = loopeng.check_criterion_source(P, R, F, FIT, ("m_step",))
